@@ -79,11 +79,14 @@ type RunObs struct {
 	Apis  []ApiObs `json:"apis"`
 	// Cli: this run went through the binary (`coca analysis -p DIR`, `coca api -f -p DIR` in a fresh working directory);
 	// Apis is then read from coca_reporter/apis.json and Csv from coca_reporter/api.csv (CsvOk: it was there and well-formed)
-	Cli   bool     `json:"cli"`
-	CsvOk bool     `json:"csvOk"`
-	Prior bool     `json:"prior"` // Cli: the working directory had served another project before (stale coca_reporter/)
-	Csv   []CsvRow `json:"csv"`
-	Note  string   `json:"note,omitempty"`
+	Cli   bool `json:"cli"`
+	CsvOk bool `json:"csvOk"`
+	Prior bool `json:"prior"` // Cli: the working directory had served another project before (stale coca_reporter/)
+	// Agg (Cli): the scan was made with `-a <prefix>` (aggregate): the count table and api.csv list the handlers whose URI
+	// begins with the prefix; apis.json is the API list of the project all the same
+	Agg  string   `json:"agg"`
+	Csv  []CsvRow `json:"csv"`
+	Note string   `json:"note,omitempty"`
 }
 
 type Record struct {
@@ -240,8 +243,21 @@ func runCli(c Case, ri int, scratch string) RunObs {
 	if out, err := run("analysis", "-p", "proj"); err != nil {
 		return RunObs{Panic: true, Cli: true, Prior: o.Prior, Apis: []ApiObs{}, Csv: []CsvRow{}, Note: "coca analysis: " + err.Error() + " " + tailStr(out)}
 	}
-	if out, err := run("api", "-f", "-p", "proj"); err != nil {
-		return RunObs{Panic: true, Cli: true, Prior: o.Prior, Apis: []ApiObs{}, Csv: []CsvRow{}, Note: "coca api: " + err.Error() + " " + tailStr(out)}
+	apiArgs := []string{"api", "-f", "-p", "proj"}
+	if c.Layout%5 == 2 {
+		// aggregate by a prefix taken from the project itself: the base path of its LAST controller in walk order
+		for _, k := range c.Runs[ri] {
+			f := c.Files[k-1]
+			if f.Ctrl != "none" && f.Base.Form != "none" && f.Base.Path != "" {
+				o.Agg = f.Base.Path
+			}
+		}
+		if o.Agg != "" {
+			apiArgs = append(apiArgs, "-a", o.Agg)
+		}
+	}
+	if out, err := run(apiArgs...); err != nil {
+		return RunObs{Panic: true, Cli: true, Prior: o.Prior, Agg: o.Agg, Apis: []ApiObs{}, Csv: []CsvRow{}, Note: "coca api: " + err.Error() + " " + tailStr(out)}
 	}
 	var apis []struct {
 		Uri, HttpMethod, MethodName, RequestBodyClass, PackageName, ClassName string
